@@ -75,7 +75,7 @@ LanczosShape(i, t) ==
   LET n == LSizes[i]
       p == ((i + t) % 3) + 1
       x == (Hash(i, t, 6) % 2) + 1
-  IN Sh("lanczos", n, LCols(n, (Hash(i, t, 4) % 3) + 1), LCoranks[((i + t + 2) % 4) + 1],
+  IN Sh("lanczos", n, LCols(n, ((i + 2 * t) % 3) + 1), LCoranks[((i + t + 2) % 4) + 1],
         LProfiles[IF p = 3 /\ n > 520 THEN 1 ELSE p],      \* dense only where the trace stays small
         BigExtras[x][1], BigExtras[x][2])
 Lanczos == {LanczosShape(i, t) : i \in 1..Len(LSizes), t \in 1..LT}
